@@ -232,4 +232,38 @@ def multiTrace : List (JoinDef × St) → List JOp → List (List (List (Ev × E
     jss.map (fun js => (stepJ js.1 js.2 m).2) ::
       multiTrace (jss.map (fun js => (js.1, (stepJ js.1 js.2 m).1))) ms
 
+/-! ### joins that are unregistered and registered again on a live manager
+
+`unregister_join(id)` removes the id from `stream_to_joins[left_stream]` and
+`stream_to_joins[right_stream]` and drops the node and the handler: from then on no call reaches
+the join. `register_join(id, node, handler)` with a fresh node files the id under both streams
+again: the join restarts from `init` (empty buffers, no flags, watermark 0). Assumption (the
+harness generates nothing else): per join id the control calls alternate unregister, register,
+unregister, … starting from the registered state — registering an id that is still registered
+would list it twice under its streams. -/
+
+/-- a call on a live manager: a routed call, `unregister_join(j<i>)`, or
+`register_join(j<i>, fresh node of join i, handler i)` -/
+inductive COp where
+  | op (m : JOp)
+  | unreg (i : Nat)
+  | reg (i : Nat)
+deriving Repr, DecidableEq
+
+/-- one call as seen by the join with index `i`; `none` = currently not registered -/
+def stepC (i : Nat) (j : JoinDef) (s : Option St) : COp → Option St × List (Ev × Ev)
+  | .op m =>
+    match s with
+    | some st => (some (stepJ j st m).1, (stepJ j st m).2)
+    | none => (none, [])
+  | .unreg k => (if k = i then none else s, [])
+  | .reg k => (if k = i then some init else s, [])
+
+/-- the manager's loop with control calls (`multiTrace` when there are none) -/
+def multiTraceC : List (Nat × JoinDef × Option St) → List COp → List (List (List (Ev × Ev)))
+  | _, [] => []
+  | jss, c :: cs =>
+    jss.map (fun x => (stepC x.1 x.2.1 x.2.2 c).2) ::
+      multiTraceC (jss.map (fun x => (x.1, x.2.1, (stepC x.1 x.2.1 x.2.2 c).1))) cs
+
 end C14
